@@ -19,6 +19,11 @@ OPTION_SETS = [
     ["--from-offset", "100", "--to-offset", "-8", "--no-status"],
     ["--show", "parse_info", "--no-status"],
     ["--hide", "slice", "--no-status", "--ignore-parse-info-prefix"],
+    # WITH the status line (drawn whenever something is hidden) and stop offsets that resolve to 0 / before the start
+    ["--hide", "parse_info", "--to-offset", "0"],
+    ["--show", "padding", "--to-offset", "-4096"],
+    ["--from-offset", "64"],
+    ["--hide-slice", "--from-offset", "-40"],
 ]
 
 
@@ -54,7 +59,7 @@ class Prop(object):
     lean_modules = ["VC2.Props.C26"]
     status = "partial"
     rule = ("the 12 conformant seed streams (incl. one with a custom quantisation matrix) and their byte- and field-level mutations and random data, written to a file and "
-            "shown by the REAL command main([...]) under the default options and 8 sampled option sets (internal state, verbose, hide-slice, offset windows, show/hide filters, "
+            "shown by the REAL command main([...]) under the default options and 12 sampled option sets (internal state, verbose, hide-slice, offset windows incl. stop offsets 0 and before the start, show/hide filters with and without the status line, "
             "ignore prefix): the return code must be one of 0 (ok), 2 (bad prefix), 3 (end of file), 4 (parse failure) and never 255; inputs over the size bound or slower than 5 s are skipped")
     trusted = ["model ViewerCli.lean covers only the error classification and exit-status decision; the display code is not modelled: for it this check is a search on the real program, which is support, not proof"]
     assumptions = ["same size bound as the validator checks (inputs the guarded validator reports as out of scope are skipped)"]
